@@ -63,6 +63,11 @@ def run(sid, props):
     assert st.strip() == "", "/repo not clean: " + st
     rc, o = sh("git apply %s" % os.path.join(d, "patch.diff"), "/repo")
     assert rc == 0, o
+    # the evidence files of /verif describe runs on the unchanged tree: keep them aside while the change is applied
+    ev_dir = os.path.join(HERE, "evidence")
+    ev_bak = os.path.join(HERE, ".cache", "evidence_before_seeded")
+    shutil.rmtree(ev_bak, ignore_errors=True)
+    shutil.copytree(ev_dir, ev_bak)
     try:
         for p in props:
             rc, o = sh("python3 vp.py check %s --tier quick" % p, HERE, timeout=3000)
@@ -83,6 +88,8 @@ def run(sid, props):
         sh("git checkout -- .", "/repo")
         rc, st = sh("git status --short", "/repo")
         print("repo restored:", st.strip() == "")
+        for f in os.listdir(ev_bak):
+            shutil.copy(os.path.join(ev_bak, f), os.path.join(ev_dir, f))
     json.dump(meta, open(os.path.join(d, "meta.json"), "w"), indent=1)
 
 
